@@ -36,7 +36,8 @@ def run(tier):
     ins = []
     for i, s in enumerate(scen):
         ins.append({"id": i, "nodes": s["nodes"], "strategy": s["strategy"], "pool": s["pool"], "policy": s["policy"],
-                    "tablets": None if s["tablets"] == "none" else s["tablets"], "keys": keys, "rounds": s["rounds"]})
+                    "tablets": None if s["tablets"] == "none" else s["tablets"], "keys": keys, "rounds": s["rounds"],
+                    "nat": s["nat"], "initial_tablets": s["initial_tablets"], "refresh": s["refresh"]})
     sin, sout = os.path.join(wd, "scen.ndjson"), os.path.join(wd, "out.ndjson")
     write_ndjson(sin, ins)
     p = run_harness("vh-driver", ["c12", "run", sin, sout], timeout=3400)
@@ -47,7 +48,7 @@ def run(tier):
     for s, o in zip(scen, outs):
         if o.get("start_err"):
             raise ToolError("c12 scenario %s could not be set up: %s" % (o.get("id"), o["start_err"][:300]))
-        o.update(nodes=s["nodes"], strategy=s["strategy"], policy=s["policy"], has_tablets=0 if s["tablets"] == "none" else 1,
+        o.update(nodes=s["nodes"], strategy=s["strategy"], policy=s["policy"], has_tablets=0 if s["tablets"] == "none" else 1, nat=s["nat"],
                  tablets=[] if s["tablets"] == "none" else s["tablets"])
         for e in o["execs"]:
             e["token"] = keytok[e["pk"]]
@@ -55,7 +56,7 @@ def run(tier):
             co = e.get("coordinator", "none")
             e["coordinator"] = {"some": 0} if co == "none" else {"some": 1, "node": co["node"], "shard": co["shard"]}
         rows.append(o)
-    notfull = [o["id"] for o in rows if o["pools_full"] != 1]
+    notfull = [o["id"] for o in rows if o["pools_full"] != 1 and o["nat"] == 0]
     if notfull:
         raise ToolError("pools did not fill within the wait in scenarios %s (environment, not a verdict)" % notfull[:10])
     jp = os.path.join(wd, "j.ndjson")
